@@ -200,3 +200,128 @@ Proof.
   intros a b x ys Hx H. induction H as [|y ys Hy _ IH]; cbn; trivial.
   rewrite (int_cmp_exact a b x y OEq Hx Hy). unfold eval_inlist in IH. rewrite IH. reflexivity.
 Qed.
+
+(* ------------------------------------------------------------------ decimals *)
+(* multiplying both sides by a positive constant does not change a comparison *)
+Lemma zcmp_scale : forall op x y k, 0 < k -> zcmp op (x * k) (y * k) = zcmp op x y.
+Proof.
+  intros op x y k Hk.
+  assert (E : (x * k =? y * k) = (x =? y)).
+  { destruct (Z.eqb_spec x y) as [->|N]; [apply Z.eqb_refl|]. apply Z.eqb_neq. nia. }
+  assert (L : forall u v, (u * k <? v * k) = (u <? v)).
+  { intros u v. destruct (Z.ltb_spec u v); [apply Z.ltb_lt|apply Z.ltb_ge]; nia. }
+  assert (M : forall u v, (u * k <=? v * k) = (u <=? v)).
+  { intros u v. destruct (Z.leb_spec u v); [apply Z.leb_le|apply Z.leb_gt]; nia. }
+  destruct op; cbn; rewrite ?E, ?L, ?M; reflexivity.
+Qed.
+
+Lemma wrap_i8_small : forall z, -128 <= z <= 127 -> wrap_i8 z = z.
+Proof. intros z H. unfold wrap_i8. rewrite Z.mod_small; lia. Qed.
+
+Lemma fits_i8_bounds : forall z, fits_i8 z = true <-> -128 <= z <= 127.
+Proof. intros; unfold fits_i8; rewrite andb_true_iff, !Z.leb_le; tauto. Qed.
+
+Lemma max_prec_bounds : forall v, 9 <= max_prec v <= 76.
+Proof. intros []; cbn; lia. Qed.
+
+(* 10^MAX_PRECISION fits the native integer of every decimal variant *)
+Lemma pow_max_prec_native : forall v, 10 ^ max_prec v <= nat_half v - 1.
+Proof. intros []; vm_compute; discriminate. Qed.
+
+Lemma valid_dec_bounds : forall v p s,
+  valid_dec v p s = true -> 1 <= p <= max_prec v /\ s <= max_prec v /\ (0 < s -> s <= p).
+Proof.
+  intros v p s H. unfold valid_dec in H.
+  apply andb_true_iff in H as [H H4]. apply andb_true_iff in H as [H H3]. apply andb_true_iff in H as [H1 H2].
+  apply Z.leb_le in H1, H2, H3. apply orb_true_iff in H4 as [H4|H4]; apply Z.leb_le in H4; lia.
+Qed.
+
+Lemma in_native_bounds : forall v z, in_native v z = true <-> - nat_half v <= z <= nat_half v - 1.
+Proof. intros; unfold in_native; rewrite andb_true_iff, !Z.leb_le; tauto. Qed.
+
+Lemma wrap_native_small : forall v z, in_native v z = true -> wrap_native v z = z.
+Proof.
+  intros v z H. apply in_native_bounds in H. unfold wrap_native.
+  assert (0 < nat_half v) by (destruct v; reflexivity).
+  rewrite Z.mod_small; lia.
+Qed.
+
+(* the integer types a decimal variant is wide enough for: both bounds fit its native integer *)
+Definition int_fits (v : dvar) (t : nty) : bool :=
+  match t with
+  | TInt i => in_native v (ilo i) && in_native v (ihi i)
+  | _ => true
+  end.
+
+Lemma int_fits_wrap : forall v i x,
+  int_fits v (TInt i) = true -> in_irange i x = true -> wrap_native v x = x.
+Proof.
+  intros v i x F R. apply wrap_native_small. cbn in F. apply andb_true_iff in F as [F1 F2].
+  apply in_native_bounds in F1, F2. apply in_irange_bounds in R. apply in_native_bounds. lia.
+Qed.
+
+(* A successful cast into a decimal type of at least the source's scale multiplies the unscaled
+   value by the right power of ten -- EXACT (or it fails); needs the absence of the i8 overflow
+   inside arrow's make_upscaler ([cast_ovf] = false). *)
+Lemma cast_to_dec_exact : forall ta v p s x x',
+  ty_ok ta = true -> val_ok ta x = true -> int_fits v ta = true ->
+  scale_of ta <= s ->
+  cast_ovf ta (TDec v p s) = false ->
+  cast_val ta (TDec v p s) x = COk x' ->
+  x' = x * 10 ^ (s - scale_of ta).
+Proof.
+  intros ta v p s x x' Hty Hval Hfit Hs Hovf Hc.
+  unfold cast_val, cast_ovf in *.
+  destruct (nty_eqb ta (TDec v p s)) eqn:E.
+  { apply nty_eqb_eq in E; subst ta. cbn. rewrite Z.sub_diag. cbn. injection Hc as <-. lia. }
+  destruct ta as [|i|f|v1 p1 s1]; try discriminate.
+  - (* integer -> decimal *)
+    cbn [scale_of] in *. rewrite Z.sub_0_r.
+    unfold cast_int_dec in Hc.
+    destruct (s <? 0); [discriminate|].
+    destruct (negb (in_native v (10 ^ s))); [discriminate|].
+    cbn [val_ok] in Hval. rewrite (int_fits_wrap v i x Hfit Hval) in Hc.
+    destruct (negb (in_native v (x * 10 ^ s))); [discriminate|].
+    destruct (negb (prec_ok v p (x * 10 ^ s))); [discriminate|].
+    destruct (negb (valid_dec v p s)); [discriminate|]. congruence.
+  - (* decimal -> decimal *)
+    cbn [scale_of ty_ok val_ok] in *.
+    apply andb_true_iff in Hty as [Hv1 Hs1]. apply Z.leb_le in Hs1.
+    apply valid_dec_bounds in Hv1 as (Hp1 & Hs1m & Hs1p).
+    apply Z.leb_le in Hval.
+    unfold cast_dec_dec in Hc. unfold cast_dec_dec_ovf in Hovf.
+    destruct (dvar_eqb v1 v && (s1 =? s) && (p1 <=? p)) eqn:Same.
+    { apply andb_true_iff in Same as [Same _]. apply andb_true_iff in Same as [_ Same].
+      apply Z.eqb_eq in Same; subst s1. rewrite Z.sub_diag. cbn.
+      destruct (valid_dec v p s); [|discriminate]. injection Hc as <-. lia. }
+    destruct (s1 <=? s) eqn:Le; [|apply Z.leb_gt in Le; lia].
+    apply orb_false_iff in Hovf as [O1 O2].
+    apply negb_false_iff in O1. apply fits_i8_bounds in O1.
+    rewrite (wrap_i8_small (s - s1) O1) in *.
+    destruct ((s - s1 <? 0) || (max_prec v <? s - s1)) eqn:Tab; [discriminate|].
+    apply orb_false_iff in Tab as [T1 T2]. apply Z.ltb_ge in T1, T2.
+    cbn [negb andb] in O2. apply negb_false_iff in O2. apply fits_i8_bounds in O2.
+    pose proof (max_prec_bounds v1) as B1. pose proof (max_prec_bounds v) as B.
+    rewrite (wrap_i8_small p1) in * by lia.
+    rewrite (wrap_i8_small (p1 + (s - s1)) O2) in Hc.
+    destruct (wrap_i8 p) eqn:WP; fold (wrap_i8 p) in *.
+    all: rewrite <- WP in Hc.
+    all: destruct (p1 + (s - s1) <=? wrap_i8 p) eqn:Inf.
+    all: try (destruct (negb (in_native v x)); [discriminate|];
+              destruct (negb (in_native v (x * 10 ^ (s - s1)))); [discriminate|];
+              destruct (negb (prec_ok v p (x * 10 ^ (s - s1)))); [discriminate|];
+              destruct (negb (valid_dec v p s)); [discriminate|]; congruence).
+    all: destruct (negb (in_native v x)); [discriminate|].
+    all: destruct (valid_dec v p s) eqn:V; [|discriminate].
+    all: apply valid_dec_bounds in V as (Vp & _ & _).
+    all: rewrite (wrap_i8_small p) in Inf by lia.
+    all: apply Z.leb_le in Inf.
+    all: injection Hc as <-.
+    all: apply wrap_native_small; apply in_native_bounds.
+    all: pose proof (pow_max_prec_native v) as PN.
+    all: assert (Hpow : 10 ^ p1 * 10 ^ (s - s1) <= 10 ^ max_prec v)
+           by (rewrite <- Z.pow_add_r by lia; apply Z.pow_le_mono_r; lia).
+    all: assert (0 < 10 ^ (s - s1)) by (apply Z.pow_pos_nonneg; lia).
+    all: assert (0 < 10 ^ p1) by (apply Z.pow_pos_nonneg; lia).
+    all: nia.
+Qed.
